@@ -1,13 +1,13 @@
 //@ unit cosets
 //@ props C11
 //@@ depends free_words partitions
-//@@ fnprops C13 lemma_pairs_bound lemma_pigeon_int lemma_ix_join lemma_ix_final lemma_ix_pairing lemma_compacted_row lemma_pairing_trace lemma_intersection_fixes witness_intersection_contract canary_intersection_contract
+//@@ fnprops C13 lemma_ind_join lemma_ind_final lemma_ind_pairing lemma_core_trace lemma_core_fixes canary_induced_table_contract canary_core_table_contract lemma_rows_alloc_bound lemma_pairs_bound lemma_pigeon_int lemma_ix_join lemma_ix_final lemma_ix_pairing lemma_compacted_row lemma_pairing_trace lemma_intersection_fixes witness_intersection_contract canary_intersection_contract
 #![feature(panic_internals)]
 #![feature(sized_hierarchy)]
 use vstd::prelude::*;
 use vstd::std_specs::core::IndexSpecImpl;
 use vstd::std_specs::ops::*;
-use std::collections::{BTreeMap, BTreeSet, VecDeque};
+use std::collections::{BTreeMap, BTreeSet, HashMap, VecDeque};
 use std::cmp::Ordering;
 use std::ops::{Index, Mul};
 verus! {
@@ -2986,6 +2986,538 @@ pub proof fn lemma_intersection_fixes(ta: &CosetTable, tb: &CosetTable, t: &Cose
     lemma_pairing_trace(ta, tb, t, pa, 0, w);
     let r = trace(t, 0, w).unwrap() as int;
     if trace(ta, 0, w) == Some(0usize) && trace(tb, 0, w) == Some(0usize) { assert(pa[r] == pa[0]); }
+}
+
+// =====================================================================================================
+// C13: induced_table (the orbit of a start state under an action given by a closure) and core_table
+// induced_table is generic in the state type; it is verified at T := Vec<usize> (R4), its only instantiation in the crate (core_table).
+// States are compared by their views.  The closure is visible only as the relation img.ensures((x, g), y).
+// =====================================================================================================
+// HashMap pieces by their std semantics (R5); vstd has no key model for Vec keys, so the maps are seen through uninterpreted views
+pub uninterp spec fn oview(m: &HashMap<Vec<usize>, usize>) -> Map<Seq<usize>, usize>;
+pub uninterp spec fn nview(m: &HashMap<usize, Vec<usize>>) -> Map<usize, Seq<usize>>;
+// HashMap::from([(k, v)])
+#[verifier::external_body]
+fn __o2n_from1(k: Vec<usize>, v: usize) -> (r: HashMap<Vec<usize>, usize>)
+    ensures oview(&r) == Map::<Seq<usize>, usize>::empty().insert(k@, v)
+{ HashMap::from([(k, v)]) }
+#[verifier::external_body]
+fn __n2o_from1(k: usize, v: Vec<usize>) -> (r: HashMap<usize, Vec<usize>>)
+    ensures nview(&r) == Map::<usize, Seq<usize>>::empty().insert(k, v@)
+{ HashMap::from([(k, v)]) }
+// &m[&i]
+#[verifier::external_body]
+fn __n2o_at<'a>(m: &'a HashMap<usize, Vec<usize>>, i: usize) -> (r: &'a Vec<usize>)
+    requires nview(m).contains_key(i)
+    ensures r@ == nview(m)[i]
+{ &m[&i] }
+// *m.entry(k).or_insert(v)
+#[verifier::external_body]
+fn __entry_or_insert(m: &mut HashMap<Vec<usize>, usize>, k: Vec<usize>, v: usize) -> (r: usize)
+    ensures oview(old(m)).contains_key(k@) ==> r == oview(old(m))[k@] && oview(final(m)) == oview(old(m)),
+        !oview(old(m)).contains_key(k@) ==> r == v && oview(final(m)) == oview(old(m)).insert(k@, v)
+{ *m.entry(k).or_insert(v) }
+// m.insert(n, k)
+#[verifier::external_body]
+fn __n2o_insert(m: &mut HashMap<usize, Vec<usize>>, n: usize, k: Vec<usize>)
+    ensures nview(final(m)) == nview(old(m)).insert(n, k@)
+{ m.insert(n, k); }
+// Rust guarantees that no allocation exceeds isize::MAX bytes; a Vec<isize> header has 24 bytes
+#[verifier::external_body]
+proof fn lemma_rows_alloc_bound(v: &Vec<Vec<isize>>)
+    ensures v@.len() <= isize::MAX / 24
+{}
+
+// the closure as a relation on views
+pub open spec fn img_call<F: Fn(&Vec<usize>, isize) -> Vec<usize>>(img: &F, s: Seq<usize>, g: isize, r: Seq<usize>) -> bool {
+    exists|x: Vec<usize>, y: Vec<usize>| #[trigger] img.ensures((&x, g), y) && x@ == s && y@ == r
+}
+// a state the enumeration can meet: the start state or something the closure returned
+pub open spec fn st_ok<F: Fn(&Vec<usize>, isize) -> Vec<usize>>(img: &F, start: Seq<usize>, s: Seq<usize>) -> bool {
+    s == start || exists|x: Vec<usize>, g: isize, y: Vec<usize>| #[trigger] img.ensures((&x, g), y) && y@ == s
+}
+// what induced_table needs of the closure: callable on every such state, a function on views, and the inverse generator undoes the generator
+pub open spec fn is_gen(g: isize, ngens: int) -> bool { g != 0 && -ngens <= g <= ngens }
+pub open spec fn img_pre<F: Fn(&Vec<usize>, isize) -> Vec<usize>>(img: &F, start: Seq<usize>, ngens: int) -> bool {
+    &&& forall|x: Vec<usize>, g: isize| #![trigger img.requires((&x, g))] st_ok(img, start, x@) && is_gen(g, ngens) ==> img.requires((&x, g))
+    &&& forall|x1: Vec<usize>, x2: Vec<usize>, g: isize, y1: Vec<usize>, y2: Vec<usize>| #![trigger img.ensures((&x1, g), y1), img.ensures((&x2, g), y2)]
+            st_ok(img, start, x1@) && is_gen(g, ngens) && img.ensures((&x1, g), y1) && img.ensures((&x2, g), y2) && x1@ == x2@ ==> y1@ == y2@
+    &&& forall|x: Vec<usize>, g: isize, y: Vec<usize>, y2: Vec<usize>, h: isize, z: Vec<usize>| #![trigger img.ensures((&x, g), y), img.ensures((&y2, h), z)]
+            st_ok(img, start, x@) && is_gen(g, ngens) && img.ensures((&x, g), y) && img.ensures((&y2, h), z) && y2@ == y@ && h as int == -(g as int) ==> z@ == x@
+}
+
+// the loop state of induced_table
+pub open spec fn ind_state<F: Fn(&Vec<usize>, isize) -> Vec<usize>>(img: &F, t: &CosetTable, o2n: Map<Seq<usize>, usize>, n2o: Map<usize, Seq<usize>>, start: Seq<usize>) -> bool {
+    &&& rows_ok(t) && t.table@.len() <= isize::MAX / 24
+    &&& forall|x: int| #[trigger] t.part.rep(x) == x
+    &&& forall|k: usize| #[trigger] n2o.contains_key(k) <==> k < t.table@.len()
+    &&& n2o[0usize] == start
+    &&& forall|k: usize| k < t.table@.len() ==> st_ok(img, start, #[trigger] n2o[k]) && o2n.contains_key(n2o[k]) && o2n[n2o[k]] == k
+    &&& forall|s: Seq<usize>| #[trigger] o2n.contains_key(s) ==> o2n[s] < t.table@.len() && n2o[o2n[s]] == s
+    // every defined entry is the right one: whatever the closure returns on the state of row k and generator g is the state of that row
+    &&& forall|k: int, g: int, x: Vec<usize>, y: Vec<usize>| #![trigger t.raw(k, g), img.ensures((&x, g as isize), y)]
+            0 <= k < t.table@.len() && t.gen_ok(g) && t.raw(k, g) >= 0 && x@ == n2o[k as usize] && img.ensures((&x, g as isize), y)
+            ==> y@ == n2o[t.raw(k, g) as usize]
+}
+
+// the closure has been called on the state of row k with generator g
+pub open spec fn called<F: Fn(&Vec<usize>, isize) -> Vec<usize>>(img: &F, n2o: Map<usize, Seq<usize>>, k: int, g: int) -> bool {
+    exists|x: Vec<usize>, y: Vec<usize>| #[trigger] img.ensures((&x, g as isize), y) && x@ == n2o[k as usize]
+}
+
+// pa gives every row of r its state: row 0 the start state, injectively, and compatibly with the closure
+pub open spec fn ind_pairing<F: Fn(&Vec<usize>, isize) -> Vec<usize>>(img: &F, r: &CosetTable, start: Seq<usize>, pa: Seq<Seq<usize>>) -> bool {
+    &&& pa.len() == r.table@.len() && pa[0] == start
+    &&& forall|x: int| 0 <= x < pa.len() ==> st_ok(img, start, #[trigger] pa[x])
+    &&& forall|r1: int, r2: int| 0 <= r1 < pa.len() && 0 <= r2 < pa.len() && #[trigger] pa[r1] == #[trigger] pa[r2] ==> r1 == r2
+    &&& forall|x: int, g: int| 0 <= x < pa.len() && r.gen_ok(g) ==>
+            (#[trigger] r.act(x, g)).is_some() && r.act(x, g).unwrap() < pa.len() && img_call(img, pa[x], g as isize, pa[r.act(x, g).unwrap() as int])
+}
+
+proof fn lemma_ind_join<F: Fn(&Vec<usize>, isize) -> Vec<usize>>(img: &F, t0: &CosetTable, t1: &CosetTable, o0: Map<Seq<usize>, usize>, m0: Map<usize, Seq<usize>>,
+                        o1: Map<Seq<usize>, usize>, m1s: Map<usize, Seq<usize>>, start: Seq<usize>, i: int, g: isize, xi: Vec<usize>, k: Vec<usize>, n: int)
+    requires img_pre(img, start, t0.nr_gens as int), ind_state(img, t0, o0, m0, start), 0 <= i < t0.table@.len(), t0.gen_ok(g as int),
+        xi@ == m0[i as usize], img.ensures((&xi, g), k),
+        o0.contains_key(k@) ==> n == o0[k@] && o1 == o0,
+        !o0.contains_key(k@) ==> n == t0.table@.len() && o1 == o0.insert(k@, n as usize),
+        m1s == m0.insert(n as usize, k@),
+        // the join
+        t1.nr_gens == t0.nr_gens, t1.part == t0.part, t1.wf(),
+        t1.raw(i, g as int) == n && t1.raw(n, -(g as int)) == i,
+        t1.table@.len() == (if n < t0.table@.len() { t0.table@.len() as int } else { n + 1 }),
+        t1.table@.len() <= isize::MAX / 24,
+        forall|c2: int, g2: int| 0 <= c2 < t1.table@.len() && t0.col_ok(g2) && !(c2 == i && g2 == g) && !(c2 == n && g2 == -(g as int))
+            ==> #[trigger] t1.raw(c2, g2) == (if c2 < t0.table@.len() { t0.raw(c2, g2) } else { -1 }),
+    ensures ind_state(img, t1, o1, m1s, start), 0 <= n < t1.table@.len(),
+        forall|kk: usize| kk < t0.table@.len() ==> #[trigger] m1s[kk] == m0[kk],
+{
+    let len0 = t0.table@.len() as int;
+    let gi = g as int;
+    assert(0 <= n <= len0) by { if o0.contains_key(k@) { assert(o0[k@] < len0); } }
+    assert(st_ok(img, start, k@));
+    // the state of row n is k@ before and after
+    if o0.contains_key(k@) {
+        assert(m0[o0[k@]] == k@);
+        assert(m0.contains_key(n as usize));
+        assert(m1s =~= m0);
+    }
+    assert(m1s[n as usize] == k@);
+    assert forall|kk: usize| #[trigger] m1s.contains_key(kk) <==> kk < t1.table@.len() by {
+        if kk as int != n { assert(m1s.contains_key(kk) == m0.contains_key(kk)); }
+    }
+    assert forall|kk: usize| kk < t1.table@.len() implies #[trigger] m1s[kk] == (if kk as int == n { k@ } else { m0[kk] }) by { }
+    assert(m1s[0usize] == start) by { if n == 0 { assert(m0[0usize] == k@); } }
+    assert forall|kk: usize| kk < t1.table@.len() implies st_ok(img, start, #[trigger] m1s[kk]) && o1.contains_key(m1s[kk]) && o1[m1s[kk]] == kk by {
+        if kk as int == n {
+            if o0.contains_key(k@) { } else { }
+        } else {
+            assert(kk < len0);
+            assert(o0.contains_key(m0[kk]) && o0[m0[kk]] == kk);
+            if !o0.contains_key(k@) { assert(m0[kk] != k@); }
+        }
+    }
+    assert forall|s: Seq<usize>| #[trigger] o1.contains_key(s) implies o1[s] < t1.table@.len() && m1s[o1[s]] == s by {
+        if o0.contains_key(s) {
+            assert(o0[s] < len0 && m0[o0[s]] == s);
+            if !o0.contains_key(k@) { assert(s != k@); assert(o1[s] == o0[s]); assert(o0[s] as int != n); }
+            else { if o0[s] as int == n { assert(m0[o0[s]] == s); assert(m0[n as usize] == k@); } }
+        } else {
+            assert(s == k@);
+        }
+    }
+    // rows_ok
+    assert(rows_ok(t1)) by {
+        assert forall|c: int, g2: int| 0 <= c < t1.table@.len() && t1.col_ok(g2) implies -1 <= #[trigger] t1.raw(c, g2) < t1.table@.len() by {
+            if c == i && g2 == gi { } else if c == n && g2 == -gi { }
+            else { if c < len0 { assert(-1 <= t0.raw(c, g2) < len0); } }
+        }
+        assert forall|x: int| 0 <= x < t1.table@.len() implies 0 <= #[trigger] t1.part.rep(x) < t1.table@.len() by { assert(t0.part.rep(x) == x); }
+        assert forall|x: int| #[trigger] t1.part.rep(t1.part.rep(x)) == t1.part.rep(x) by { assert(t0.part.rep(x) == x); }
+        assert forall|x: int| !(0 <= x < t1.table@.len()) implies #[trigger] t1.part.rep(x) == x by { assert(t0.part.rep(x) == x); }
+    }
+    assert forall|x: int| #[trigger] t1.part.rep(x) == x by { assert(t0.part.rep(x) == x); }
+    // every defined entry is the right one
+    assert forall|kk: int, g2: int, x: Vec<usize>, y: Vec<usize>| #![trigger t1.raw(kk, g2), img.ensures((&x, g2 as isize), y)]
+            0 <= kk < t1.table@.len() && t1.gen_ok(g2) && t1.raw(kk, g2) >= 0 && x@ == m1s[kk as usize] && img.ensures((&x, g2 as isize), y)
+            implies y@ == m1s[t1.raw(kk, g2) as usize] by {
+        if kk == i && g2 == gi {
+            // determinism: the closure returned k on a vector with the same view
+            assert(m1s[i as usize] == m0[i as usize]) by { if i == n { assert(m0[n as usize] == k@); } }
+            assert(g2 as isize == g);
+            assert(img.ensures((&xi, g), k) && img.ensures((&x, g), y) && xi@ == x@);
+        } else if kk == n && g2 == -gi {
+            // the inverse generator undoes the generator
+            assert(x@ == k@);
+            assert(img.ensures((&xi, g), k) && img.ensures((&x, g2 as isize), y) && x@ == k@ && (g2 as isize) as int == -(g as int));
+            assert(y@ == xi@);
+            assert(m1s[i as usize] == m0[i as usize]) by { if i == n { assert(m0[n as usize] == k@); } }
+        } else {
+            assert(t1.raw(kk, g2) == (if kk < len0 { t0.raw(kk, g2) } else { -1 }));
+            assert(kk < len0);
+            let c = t0.raw(kk, g2);
+            assert(-1 <= c < len0);
+            assert(m1s[kk as usize] == m0[kk as usize]) by { if kk == n { assert(m0[n as usize] == k@); } }
+            assert(m1s[c as usize] == m0[c as usize]) by { if c == n { assert(m0[n as usize] == k@); } }
+            assert(t0.raw(kk, g2) >= 0 && x@ == m0[kk as usize] && img.ensures((&x, g2 as isize), y));
+        }
+    }
+}
+
+// a row is done: complete, and the closure was called on its state with every generator
+pub open spec fn ind_row_done<F: Fn(&Vec<usize>, isize) -> Vec<usize>>(img: &F, t: &CosetTable, n2o: Map<usize, Seq<usize>>, k: int) -> bool {
+    row_complete(t, k) && forall|g: int| t.gen_ok(g) ==> #[trigger] called(img, n2o, k, g)
+}
+
+proof fn lemma_ind_final<F: Fn(&Vec<usize>, isize) -> Vec<usize>>(img: &F, t: &CosetTable, o2n: Map<Seq<usize>, usize>, n2o: Map<usize, Seq<usize>>, start: Seq<usize>)
+    requires img_pre(img, start, t.nr_gens as int), ind_state(img, t, o2n, n2o, start), forall|k: int| 0 <= k < t.table@.len() ==> #[trigger] ind_row_done(img, t, n2o, k)
+    ensures all_complete(t), inv_consistent(t)
+{
+    assert forall|k: int| #[trigger] canonical(t, k) implies row_complete(t, k) by { assert(ind_row_done(img, t, n2o, k)); }
+    assert forall|k: int, g: int| canonical(t, k) && t.gen_ok(g) && (#[trigger] t.act(k, g)).is_some() implies t.act(t.act(k, g).unwrap() as int, -g) == Some(k as usize) by {
+        let c = t.raw(k, g);
+        assert(-1 <= c < t.table@.len());
+        assert(t.part.rep(c) == c);
+        assert(ind_row_done(img, t, n2o, c));
+        assert(t.gen_ok(-g));
+        let m = t.raw(c, -g);
+        assert(m >= 0 && -1 <= m < t.table@.len());
+        assert(t.part.rep(m) == m);
+        assert(ind_row_done(img, t, n2o, k));
+        assert(called(img, n2o, k, g));
+        let (x, y) = choose|x: Vec<usize>, y: Vec<usize>| #[trigger] img.ensures((&x, g as isize), y) && x@ == n2o[k as usize];
+        assert(y@ == n2o[c as usize]);
+        assert(called(img, n2o, c, -g));
+        let (x2, z) = choose|x2: Vec<usize>, z: Vec<usize>| #[trigger] img.ensures((&x2, (-g) as isize), z) && x2@ == n2o[c as usize];
+        assert(z@ == n2o[m as usize]);
+        assert(img.ensures((&x, g as isize), y) && img.ensures((&x2, (-g) as isize), z) && x2@ == y@ && ((-g) as isize) as int == -((g as isize) as int));
+        assert(z@ == x@);
+        assert(n2o[m as usize] == n2o[k as usize]);
+        assert(o2n[n2o[m as usize]] == m as usize && o2n[n2o[k as usize]] == k as usize);
+    }
+}
+
+proof fn lemma_ind_pairing<F: Fn(&Vec<usize>, isize) -> Vec<usize>>(img: &F, t: &CosetTable, r: &CosetTable, nw: Seq<int>, o2n: Map<Seq<usize>, usize>, n2o: Map<usize, Seq<usize>>, start: Seq<usize>)
+    requires img_pre(img, start, t.nr_gens as int), ind_state(img, t, o2n, n2o, start), forall|k: int| 0 <= k < t.table@.len() ==> #[trigger] ind_row_done(img, t, n2o, k),
+        compacted(t, r, nw),
+    ensures exists|pa: Seq<Seq<usize>>| ind_pairing(img, r, start, pa)
+{
+    let back = |x: int| choose|k: int| canonical(t, k) && #[trigger] nw[k] == x;
+    let pa = Seq::new(r.table@.len(), |x: int| n2o[back(x) as usize]);
+    assert forall|x: int| 0 <= x < r.table@.len() implies canonical(t, #[trigger] back(x)) && nw[back(x)] == x by { assert(is_row(r, x)); }
+    assert(canonical(t, 0)) by { assert(t.part.rep(0) == 0); }
+    assert(back(0) == 0) by { assert(nw[t.part.rep(0)] == 0); }
+    assert forall|r1: int, r2: int| 0 <= r1 < pa.len() && 0 <= r2 < pa.len() && #[trigger] pa[r1] == #[trigger] pa[r2] implies r1 == r2 by {
+        let k1 = back(r1); let k2 = back(r2);
+        assert(canonical(t, k1) && canonical(t, k2));
+        assert(n2o[k1 as usize] == n2o[k2 as usize]);
+        assert(o2n[n2o[k1 as usize]] == k1 as usize && o2n[n2o[k2 as usize]] == k2 as usize);
+    }
+    assert forall|x: int, g: int| 0 <= x < pa.len() && r.gen_ok(g) implies
+        (#[trigger] r.act(x, g)).is_some() && r.act(x, g).unwrap() < pa.len() && img_call(img, pa[x], g as isize, pa[r.act(x, g).unwrap() as int]) by {
+        let k = back(x);
+        assert(canonical(t, k));
+        assert(t.gen_ok(g));
+        assert(r.act(nw[k], g) == (match t.act(k, g) { Some(c) => Some(nw[c as int] as usize), None => None }));
+        assert(ind_row_done(img, t, n2o, k));
+        assert(t.raw(k, g) >= 0);
+        lemma_act_in_range(t, k, g);
+        let c = t.act(k, g).unwrap() as int;
+        assert(c == t.raw(k, g)) by { assert(t.part.rep(t.raw(k, g)) == t.raw(k, g)); }
+        assert(canonical(t, c));
+        assert(ind_row_done(img, t, n2o, c));
+        assert(t.gen_ok(-g));
+        assert(t.raw(c, -g) >= 0);
+        lemma_compacted_row(t, r, nw, c, -g);
+        let y = nw[c];
+        assert(0 <= y < r.table@.len());
+        assert(is_row(r, y));
+        let k2 = back(y);
+        assert(canonical(t, k2) && nw[k2] == nw[c]);
+        assert(k2 == c);
+        assert(called(img, n2o, k, g));
+        let (xv, yv) = choose|xv: Vec<usize>, yv: Vec<usize>| #[trigger] img.ensures((&xv, g as isize), yv) && xv@ == n2o[k as usize];
+        assert(yv@ == n2o[c as usize]);
+        assert(img.ensures((&xv, g as isize), yv) && xv@ == pa[x] && yv@ == pa[y]);
+    }
+    assert(pa[0] == start);
+    assert forall|x: int| 0 <= x < pa.len() implies st_ok(img, start, #[trigger] pa[x]) by { assert(canonical(t, back(x))); }
+    assert(ind_pairing(img, r, start, pa));
+}
+
+//@ begin src/fpgroups/cosets.rs :: - :: fn induced_table | props=C13
+//@ rw R4 /fn induced_table<T, F>\(nr_gens: usize, img: F, start: &T\)/fn induced_table<F>(nr_gens: usize, img: F, start: &Vec<usize>)/
+//@ rw R4 /^[ \t]*T: Clone \+ Eq \+ std::hash::Hash,\n//
+//@ rw R4 /F: Fn\(&T, isize\) -> T/F: Fn(&Vec<usize>, isize) -> Vec<usize>/
+//@ rw R16 /-> CosetTable$/-> (result: CosetTable)/
+//@ rw R5 /HashMap::from\(\[\(start\.clone\(\), 0\)\]\)/__o2n_from1(start.clone(), 0)/
+//@ rw R5 /HashMap::from\(\[\(0, start\.clone\(\)\)\]\)/__n2o_from1(0, start.clone())/
+//@ rw R19 /for i in 0\.\.\n([ \t]*)\{/let mut __i: usize = 0;\n\1loop\n\1{\n\1    let i = __i; __i += 1;/
+//@ rw R17 /for g in table\.all_gens\(\)$/for g in it: table.all_gens()/
+//@ rw R5 /img\(&n2o\[&i\], g\)/img(__n2o_at(&n2o, i), g)/
+//@ rw R5 /\*o2n\.entry\(k\.clone\(\)\)\.or_insert\(table\.len\(\)\)/__entry_or_insert(&mut o2n, k.clone(), table.len())/
+//@ rw R5 /n2o\.insert\(n, k\);/__n2o_insert(&mut n2o, n, k);/
+//@ rw R14 /^([ \t]*)table\.compact\(\)$/\1let __r = table.compact();\n\1__r/
+#[verifier::spinoff_prover]
+#[verifier::exec_allows_no_decreases_clause]
+fn induced_table<F>(nr_gens: usize, img: F, start: &Vec<usize>) -> (result: CosetTable)
+    where
+        F: Fn(&Vec<usize>, isize) -> Vec<usize>
+    requires nr_gens < isize::MAX / 2, img_pre(&img, start@, nr_gens as int),
+    // C13: a valid table whose rows are, injectively, the states reached from `start`, row 0 being `start`, with the closure's action
+    ensures valid(&result), result.nr_gens == nr_gens, exists|pa: Seq<Seq<usize>>| ind_pairing(&img, &result, start@, pa),
+{
+    let mut table = CosetTable::new(nr_gens);
+    let mut o2n = __o2n_from1(start.clone(), 0);
+    let mut n2o = __n2o_from1(0, start.clone());
+    proof {
+        lemma_rows_alloc_bound(&table.table);
+        assert(rows_ok(&table));
+        assert(ind_state(&img, &table, oview(&o2n), nview(&n2o), start@)) by {
+            assert forall|k: int, g: int, x: Vec<usize>, y: Vec<usize>| #![trigger table.raw(k, g), img.ensures((&x, g as isize), y)]
+                0 <= k < table.table@.len() && table.gen_ok(g) && table.raw(k, g) >= 0 && x@ == nview(&n2o)[k as usize] && img.ensures((&x, g as isize), y)
+                implies y@ == nview(&n2o)[table.raw(k, g) as usize] by { assert(table.raw(0, g) == -1); }
+        }
+    }
+
+    let mut __i: usize = 0;
+    loop
+        invariant_except_break __i <= table.table@.len(),
+        invariant img_pre(&img, start@, nr_gens as int), table.nr_gens == nr_gens,
+            ind_state(&img, &table, oview(&o2n), nview(&n2o), start@),
+            forall|k: int| 0 <= k < __i && k < table.table@.len() ==> #[trigger] ind_row_done(&img, &table, nview(&n2o), k),
+        ensures ind_state(&img, &table, oview(&o2n), nview(&n2o), start@), table.nr_gens == nr_gens,
+            forall|k: int| 0 <= k < table.table@.len() ==> #[trigger] ind_row_done(&img, &table, nview(&n2o), k),
+    {
+        let i = __i; __i += 1;
+        if i >= table.len() {
+            break;
+        }
+        for g in it: table.all_gens()
+            invariant img_pre(&img, start@, nr_gens as int), table.nr_gens == nr_gens,
+                ind_state(&img, &table, oview(&o2n), nview(&n2o), start@), i < table.table@.len(),
+                forall|k: int| 0 <= k < i ==> #[trigger] ind_row_done(&img, &table, nview(&n2o), k),
+                it.seq().len() == 2 * table.nr_gens,
+                forall|k: int| 0 <= k < it.seq().len() ==> table.gen_ok(#[trigger] it.seq()[k] as int) && gen_index(&table, it.seq()[k] as int) == k,
+                forall|h: int| table.gen_ok(h) && gen_index(&table, h) < it.index() ==> #[trigger] table.raw(i as int, h) >= 0 && called(&img, nview(&n2o), i as int, h),
+        {
+            let ghost idx = it.index() as int;
+            proof { assert(table.gen_ok(it.seq()[idx] as int) && gen_index(&table, it.seq()[idx] as int) == idx); }
+            let ghost o0 = oview(&o2n);
+            let ghost m0 = nview(&n2o);
+            let ghost t0 = table;
+            proof { assert(m0.contains_key(i)); assert(st_ok(&img, start@, m0[i])); }
+            let k = img(__n2o_at(&n2o, i), g);
+            let ghost xi: Vec<usize> = choose|v: Vec<usize>| #[trigger] img.ensures((&v, g), k) && v@ == m0[i];
+            let n = __entry_or_insert(&mut o2n, k.clone(), table.len());
+            proof {
+                if o0.contains_key(k@) { assert(o0[k@] < t0.table@.len()); }
+                lemma_rows_alloc_bound(&table.table);
+            }
+            __n2o_insert(&mut n2o, n, k);
+            table.join(i, n, g);
+            proof {
+                lemma_rows_alloc_bound(&table.table);
+                lemma_ind_join(&img, &t0, &table, o0, m0, oview(&o2n), nview(&n2o), start@, i as int, g, xi, k, n as int);
+                let m1s = nview(&n2o);
+                assert forall|kk: int| 0 <= kk < i implies #[trigger] ind_row_done(&img, &table, m1s, kk) by {
+                    assert(ind_row_done(&img, &t0, m0, kk));
+                    assert forall|h: int| table.gen_ok(h) implies #[trigger] table.raw(kk, h) >= 0 by { assert(t0.raw(kk, h) >= 0); if !(kk == n && h == -(g as int)) { assert(table.raw(kk, h) == t0.raw(kk, h)); } }
+                    assert forall|h: int| table.gen_ok(h) implies #[trigger] called(&img, m1s, kk, h) by { assert(called(&img, m0, kk, h)); assert(m1s[kk as usize] == m0[kk as usize]); }
+                }
+                assert forall|h: int| table.gen_ok(h) && gen_index(&table, h) < idx + 1 implies #[trigger] table.raw(i as int, h) >= 0 && called(&img, m1s, i as int, h) by {
+                    assert(m1s[i] == m0[i]);
+                    if gen_index(&table, h) < idx {
+                        assert(t0.raw(i as int, h) >= 0 && called(&img, m0, i as int, h));
+                        if !(i == n && h == -(g as int)) { assert(table.raw(i as int, h) == t0.raw(i as int, h)); }
+                    } else {
+                        assert(h == g);
+                        assert(img.ensures((&xi, h as isize), k) && xi@ == m1s[i]);
+                    }
+                }
+            }
+        }
+        proof {
+            assert(ind_row_done(&img, &table, nview(&n2o), i as int)) by {
+                assert forall|h: int| table.gen_ok(h) implies #[trigger] table.raw(i as int, h) >= 0 by { assert(0 <= gen_index(&table, h) < 2 * table.nr_gens); }
+                assert forall|h: int| table.gen_ok(h) implies #[trigger] called(&img, nview(&n2o), i as int, h) by { assert(0 <= gen_index(&table, h) < 2 * table.nr_gens); assert(table.raw(i as int, h) >= 0); }
+            }
+        }
+    }
+
+    proof { lemma_ind_final(&img, &table, oview(&o2n), nview(&n2o), start@); }
+    let __r = table.compact();
+    proof {
+        let nw = choose|nw: Seq<int>| compacted(&table, &__r, nw);
+        lemma_ind_pairing(&img, &table, &__r, nw, oview(&o2n), nview(&n2o), start@);
+    }
+    __r
+}
+//@ end
+
+// ---- core_table: the action on tuples of rows, started at the identity tuple ----
+// `es.iter().map(|&e| base.get(e, g).unwrap()).collect()`: the iterator chain by its std semantics (R5): element by element
+#[verifier::external_body]
+fn __map_get(base: &CosetTable, es: &Vec<usize>, g: isize) -> (r: Vec<usize>)
+    requires valid(base), base.gen_ok(g as int), good_tuple(base, es@)
+    ensures r@.len() == es@.len(), forall|j: int| 0 <= j < es@.len() ==> #[trigger] r@[j] == base.act(es@[j] as int, g as int).unwrap(),
+{ es.iter().map(|&e| base.get(e, g).unwrap()).collect() }
+// `(0..n).collect()`
+#[verifier::external_body]
+fn __iota(n: usize) -> (r: Vec<usize>)
+    ensures r@ == iota(n as int)
+{ (0..n).collect() }
+pub open spec fn iota(n: int) -> Seq<usize> { Seq::new(n as nat, |j: int| j as usize) }
+// one entry per row of the base table, each a row of the base table
+pub open spec fn good_tuple(base: &CosetTable, s: Seq<usize>) -> bool {
+    s.len() == base.table@.len() && forall|j: int| 0 <= j < s.len() ==> #[trigger] s[j] < base.table@.len()
+}
+// the tuple action: every entry moves by the generator
+pub open spec fn tuple_img(base: &CosetTable, s: Seq<usize>, g: int, r: Seq<usize>) -> bool {
+    r.len() == s.len() && forall|j: int| 0 <= j < s.len() ==> #[trigger] r[j] == base.act(s[j] as int, g).unwrap()
+}
+// pa gives every row of the core its tuple: row 0 the identity tuple, injectively, compatibly with the generators
+pub open spec fn core_pairing(base: &CosetTable, r: &CosetTable, pa: Seq<Seq<usize>>) -> bool {
+    &&& pa.len() == r.table@.len() && pa[0] == iota(base.table@.len() as int)
+    &&& forall|x: int| 0 <= x < pa.len() ==> good_tuple(base, #[trigger] pa[x])
+    &&& forall|r1: int, r2: int| 0 <= r1 < pa.len() && 0 <= r2 < pa.len() && #[trigger] pa[r1] == #[trigger] pa[r2] ==> r1 == r2
+    &&& forall|x: int, g: int| 0 <= x < pa.len() && r.gen_ok(g) ==>
+            (#[trigger] r.act(x, g)).is_some() && r.act(x, g).unwrap() < pa.len() && tuple_img(base, pa[x], g, pa[r.act(x, g).unwrap() as int])
+}
+
+//@ begin src/fpgroups/cosets.rs :: - :: fn core_table | props=C13
+//@ rw R16 /-> CosetTable$/-> (result: CosetTable)/
+//@ rw R5+R14 /^([ \t]*)let img = \|es: &Vec<usize>, g\| es\.iter\(\)\n[ \t]*\.map\(\|&e\| base\.get\(e, g\)\.unwrap\(\)\)\n[ \t]*\.collect\(\);/\1let img = |es: &Vec<usize>, g: isize| -> (r: Vec<usize>)\n\1{ __map_get(base, es, g) };/
+//@ rw R5 /&\(0\.\.base\.len\(\)\)\.collect\(\)/&__iota(base.len())/
+//@ rw R14 /^([ \t]*)induced_table\(base\.nr_gens, img, start\)$/\1let __r = induced_table(base.nr_gens, img, start);\n\1__r/
+pub fn core_table(base: &CosetTable) -> (result: CosetTable)
+    requires valid(base)
+    // C13 "the core table is the regular action of the quotient by the kernel": its rows are, injectively, the tuples into which the
+    // generators move the identity tuple (0, 1, ..., n-1) of rows of `base`
+    ensures valid(&result), result.nr_gens == base.nr_gens, exists|pa: Seq<Seq<usize>>| core_pairing(base, &result, pa),
+{
+    let img = |es: &Vec<usize>, g: isize| -> (r: Vec<usize>)
+        requires valid(base), base.gen_ok(g as int), good_tuple(base, es@)
+        ensures tuple_img(base, es@, g as int, r@), good_tuple(base, r@)
+    { __map_get(base, es, g) };
+    let start = &__iota(base.len());
+    let ghost ig = img;
+
+    proof {
+        let st = start@;
+        assert(good_tuple(base, st));
+        // every state the enumeration can meet is a good tuple
+        assert forall|x: Vec<usize>| st_ok(&ig, st, #[trigger] x@) implies good_tuple(base, x@) by { }
+        assert(img_pre(&ig, st, base.nr_gens as int)) by {
+            assert forall|x1: Vec<usize>, x2: Vec<usize>, g: isize, y1: Vec<usize>, y2: Vec<usize>| #![trigger ig.ensures((&x1, g), y1), ig.ensures((&x2, g), y2)]
+                st_ok(&ig, st, x1@) && is_gen(g, base.nr_gens as int) && ig.ensures((&x1, g), y1) && ig.ensures((&x2, g), y2) && x1@ == x2@ implies y1@ == y2@ by {
+                assert(y1@ =~= y2@);
+            }
+            assert forall|x: Vec<usize>, g: isize, y: Vec<usize>, y2: Vec<usize>, h: isize, z: Vec<usize>| #![trigger ig.ensures((&x, g), y), ig.ensures((&y2, h), z)]
+                st_ok(&ig, st, x@) && is_gen(g, base.nr_gens as int) && ig.ensures((&x, g), y) && ig.ensures((&y2, h), z) && y2@ == y@ && h as int == -(g as int) implies z@ == x@ by {
+                assert(good_tuple(base, x@));
+                assert forall|j: int| 0 <= j < x@.len() implies z@[j] == x@[j] by {
+                    assert(base.gen_ok(g as int));
+                    assert(base.act(x@[j] as int, g as int).is_some());
+                    assert(y@[j] == base.act(x@[j] as int, g as int).unwrap());
+                    assert(z@[j] == base.act(y2@[j] as int, h as int).unwrap());
+                }
+                assert(z@ =~= x@);
+            }
+        }
+    }
+    let __r = induced_table(base.nr_gens, img, start);
+    proof {
+        let pa = choose|pa: Seq<Seq<usize>>| ind_pairing(&ig, &__r, start@, pa);
+        assert forall|x: int| 0 <= x < pa.len() implies good_tuple(base, #[trigger] pa[x]) by { assert(st_ok(&ig, start@, pa[x])); }
+        assert forall|x: int, g: int| 0 <= x < pa.len() && __r.gen_ok(g) implies
+            (#[trigger] __r.act(x, g)).is_some() && __r.act(x, g).unwrap() < pa.len() && tuple_img(base, pa[x], g, pa[__r.act(x, g).unwrap() as int]) by {
+            let c = __r.act(x, g).unwrap() as int;
+            assert(img_call(&ig, pa[x], g as isize, pa[c]));
+            let (xv, yv) = choose|xv: Vec<usize>, yv: Vec<usize>| #[trigger] ig.ensures((&xv, g as isize), yv) && xv@ == pa[x] && yv@ == pa[c];
+            assert(tuple_img(base, xv@, (g as isize) as int, yv@));
+        }
+        assert(core_pairing(base, &__r, pa));
+    }
+    __r
+}
+//@ end
+
+// along every word the tuple of a row follows the base table entry by entry ...
+proof fn lemma_core_trace(base: &CosetTable, t: &CosetTable, pa: Seq<Seq<usize>>, x: int, w: Seq<isize>)
+    requires valid(base), valid(t), t.nr_gens == base.nr_gens, core_pairing(base, t, pa), 0 <= x < pa.len(), gens_ok(t, w),
+        t.table@.len() <= usize::MAX,     // true of every Vec; known in exec code from .len()
+    ensures trace(t, x, w).is_some(), trace(t, x, w).unwrap() < pa.len(),
+        forall|j: int| 0 <= j < base.table@.len() ==> (#[trigger] trace(base, pa[x][j] as int, w)).is_some()
+            && trace(base, pa[x][j] as int, w).unwrap() < base.table@.len()
+            && pa[trace(t, x, w).unwrap() as int][j] == trace(base, pa[x][j] as int, w).unwrap()
+    decreases w.len()
+{
+    assert(good_tuple(base, pa[x]));
+    if w.len() > 0 {
+        let w0 = w.drop_last();
+        assert(gens_ok(t, w0)) by { assert forall|k: int| 0 <= k < w0.len() implies t.gen_ok(#[trigger] w0[k] as int) by { assert(w0[k] == w[k]); } }
+        lemma_core_trace(base, t, pa, x, w0);
+        assert(t.gen_ok(w[w.len() - 1] as int));
+        let y = trace(t, x, w0).unwrap() as int;
+        let g = w.last() as int;
+        assert(t.act(y, g).is_some());
+        let c = t.act(y, g).unwrap() as int;
+        assert(tuple_img(base, pa[y], g, pa[c]));
+        assert(good_tuple(base, pa[y]));
+        assert forall|j: int| 0 <= j < base.table@.len() implies (#[trigger] trace(base, pa[x][j] as int, w)).is_some()
+            && trace(base, pa[x][j] as int, w).unwrap() < base.table@.len()
+            && pa[trace(t, x, w).unwrap() as int][j] == trace(base, pa[x][j] as int, w).unwrap() by {
+            let e0 = trace(base, pa[x][j] as int, w0).unwrap();
+            assert(pa[y][j] == e0);
+            assert(base.gen_ok(g));
+            assert(base.act(e0 as int, g).is_some() && base.act(e0 as int, g).unwrap() < base.table@.len());
+            assert(pa[c][j] == base.act(pa[y][j] as int, g).unwrap());
+        }
+    } else {
+        assert forall|j: int| 0 <= j < base.table@.len() implies (#[trigger] trace(base, pa[x][j] as int, w)).is_some()
+            && trace(base, pa[x][j] as int, w).unwrap() < base.table@.len()
+            && pa[trace(t, x, w).unwrap() as int][j] == trace(base, pa[x][j] as int, w).unwrap() by { }
+    }
+}
+
+// ... hence C13: "a word fixes all rows of the input exactly when it fixes row 0 of the core"
+pub proof fn lemma_core_fixes(base: &CosetTable, t: &CosetTable, pa: Seq<Seq<usize>>, w: Seq<isize>)
+    requires valid(base), valid(t), t.nr_gens == base.nr_gens, core_pairing(base, t, pa), gens_ok(t, w),
+        base.table@.len() <= usize::MAX, t.table@.len() <= usize::MAX,     // true of every Vec; known in exec code from .len()
+    ensures trace(t, 0, w) == Some(0usize) <==> (forall|e: int| 0 <= e < base.table@.len() ==> #[trigger] trace(base, e, w) == Some(e as usize))
+{
+    lemma_core_trace(base, t, pa, 0, w);
+    let y = trace(t, 0, w).unwrap() as int;
+    assert forall|j: int| 0 <= j < base.table@.len() implies pa[0][j] == j by { }
+    if trace(t, 0, w) == Some(0usize) {
+        assert forall|e: int| 0 <= e < base.table@.len() implies #[trigger] trace(base, e, w) == Some(e as usize) by {
+            assert(trace(base, pa[0][e] as int, w).is_some());
+            assert(pa[y][e] == trace(base, pa[0][e] as int, w).unwrap());
+        }
+    }
+    if forall|e: int| 0 <= e < base.table@.len() ==> #[trigger] trace(base, e, w) == Some(e as usize) {
+        assert(good_tuple(base, pa[y]) && good_tuple(base, pa[0]));
+        assert forall|j: int| 0 <= j < base.table@.len() implies pa[y][j] == pa[0][j] by {
+            assert(trace(base, pa[0][j] as int, w).is_some());
+            assert(trace(base, j, w) == Some(j as usize));
+        }
+        assert(pa[y] =~= pa[0]);
+        assert(y == 0);
+    }
+}
+
+fn canary_induced_table_contract<F: Fn(&Vec<usize>, isize) -> Vec<usize>>(img: F, start: &Vec<usize>)
+    requires img_pre(&img, start@, 2)
+    ensures false
+{
+    let r = induced_table(2, img, start);
+}
+
+fn canary_core_table_contract(base: &CosetTable)
+    requires valid(base)
+    ensures false
+{
+    let r = core_table(base);
 }
 
 fn witness_intersection_contract(ta: &CosetTable, tb: &CosetTable)
